@@ -408,13 +408,15 @@ func (sr *sessRun) play(ls *lib.Livesim) {
 		return
 	}
 	in := sr.in
-	stepTimeout := 1500 * time.Millisecond
-	quiet := 250 * time.Millisecond
-	maxWait := 6 * time.Second
+	stepTimeout := 2500 * time.Millisecond
+	// A step is complete when every representation got its PUT; only when fewer arrive the harness
+	// waits for quiet (long enough for a loaded machine: a late PUT would be booked on the next step).
+	quiet := 2 * time.Second
+	maxWait := 8 * time.Second
 	if sr.out.Chunked {
-		stepTimeout = time.Duration(in.Cfg.AtoMS+2500) * time.Millisecond
-		quiet = time.Duration(in.Cfg.AtoMS+600) * time.Millisecond
-		maxWait = time.Duration(in.Cfg.AtoMS+6000) * time.Millisecond
+		stepTimeout = time.Duration(in.Cfg.AtoMS+3500) * time.Millisecond
+		quiet = time.Duration(in.Cfg.AtoMS+2000) * time.Millisecond
+		maxWait = time.Duration(in.Cfg.AtoMS+8000) * time.Millisecond
 	}
 	sr.rc.mu.Lock()
 	from := len(sr.rc.log)
